@@ -52,6 +52,9 @@ class Unknown_Modifier_Exception(Modifier_Exception):
   pass
 
 def _is_vararg_signature(sig):
+  # A callable without any parameters is not a variable argument function.
+  if not sig.parameters:
+    return False
   for p in sig.parameters.values():
     if not p.kind == Parameter.VAR_POSITIONAL:
       return False
